@@ -55,6 +55,11 @@ XalanDOMStringCache::~XalanDOMStringCache()
 XalanDOMString&
 XalanDOMStringCache::get()
 {
+    // release() is called from destructors, so make sure
+    // it never needs to allocate memory to move a string
+    // from the busy list to the available list.
+    m_availableList.reserve(m_maximumSize + 1);
+
     if (m_availableList.empty() == true)
     {
         XalanDOMString&     theString = m_allocator.create();
